@@ -462,6 +462,6 @@ META['explanation'] += ('; engine B: the real sutils.ppos (symbolic plotting con
                         'sample per stratum of every parameter, statistics computed from the finite values only at ordered levels')
 META['bounds'] += ['ppos: n in {1,2,3,6} (thorough up to 12), constant symbolic in [-1,2] (rejection outside [0,0.5])', 'lhs: 2-3 samples x 1-2 parameters '
                    '(thorough 4), ranges symbolic with width in [1e-3,1e3]', 'boxplot_stats: 4-6 values, listed NaN/inf positions, coverages 50/90 and 40/99']
-META['outside'] = ['standard_normal (pandas rank, norm.ppf)', 'the percentile values themselves (numpy.nanpercentile is a stub whose arguments are checked)',
+META['outside'] = ['standard_normal with sorted=True or another rank method; pandas rank and scipy norm.ppf themselves (stubs: counting formula validated against pandas on all tie patterns up to length 5, ppf an uninterpreted increasing function)', 'the percentile values themselves (numpy.nanpercentile is a stub whose arguments are checked)',
                    'Boxplot(...).stats group-by / pivot (pandas)', 'Violin (KDE)']
 META['stubs'] = ['np.random.permutation: all permutations by forking', 'np.random.uniform: arbitrary value in range', 'np.nanpercentile: recording stub']
